@@ -3,7 +3,7 @@
    read back, checked against write_object / read_object by vm_compute. *)
 From Coq Require Import String List NArith ZArith Bool.
 From J5V.lib Require Import Outcome Corr.
-From J5V.model Require Import RulesDecl RulesWrite RulesRead RulesEnum RulesCorr RulesNested.
+From J5V.model Require Import RulesDecl RulesWrite RulesRead RulesEnum RulesCorr RulesNested RulesInlineEnum.
 From J5V.model Require ProtoPrintFile ProtoPrintFileWf RulesView RulesTextModel.
 Import ListNotations.
 
@@ -106,7 +106,12 @@ Inductive c04case :=
 (* a declaration tree with inline schemas (name of the root, tree), the tree of messages
    the real compiler emitted, and the root schema the real reflector returned for every
    message of that tree (None: reflection failed somewhere) *)
-| C04Tree (env : enum_env) (name : str) (s : nschema) (obs : mtree) (refl : option otree).
+| C04Tree (env : enum_env) (name : str) (s : nschema) (obs : mtree) (refl : option otree)
+(* a field with an inline enum: path of the declaring schema, position, property, inline
+   declaration; the emitted field, the nested enum (simple name, values); the reflected
+   property and the reflected enum root (schema name, enum) *)
+| C04InlineEnum (here : list str) (idx : N) (d : prop) (i : ienum) (obs : fout) (obs_name : str) (obs_enum : enum_out)
+                (refl : option rprop) (refl_enum : option (str * renum)).
 
 (* options on the value field of a map entry (the key annotation) are not part of the file model *)
 Definition drop_map_key (o : fout) : fout :=
@@ -220,6 +225,27 @@ Definition c04_check (c : c04case) : bool :=
       | _, _ => false
       end &&
       Bool.eqb (tree_rt s) (match refl with Some o => rtree_matches (norm_schema env [] name s) o | None => false end)
+  | C04InlineEnum here idx d i obs obs_name obs_enum refl refl_enum =>
+      let env := env_of_decl (ie_decl (p_name d) i) in
+      let same (x : rprop * (str * renum)) : bool :=
+        match refl, refl_enum with
+        | Some rp, Some (rn, re) =>
+            rprop_eqb (fst x) rp && str_eqb (fst (snd x)) rn && (if renum_eq_dec (snd (snd x)) re then true else false)
+        | _, _ => false
+        end in
+      match write_inline_enum idx d i with
+      | Ok (o, (n, eo)) =>
+          fout_eqb (c04_proj o) (c04_proj obs) && str_eqb n obs_name
+          && (if enum_out_eq_dec eo obs_enum then true else false)
+      | _ => false
+      end &&
+      match read_inline_enum env here (obs, (obs_name, obs_enum)) with
+      | Ok x => same x
+      | Err _ => match refl, refl_enum with Some _, Some _ => false | _, _ => true end
+      | _ => false
+      end &&
+      (* the declared schema against the real reflector: equal exactly on the fragment *)
+      Bool.eqb (inline_enum_rt d i) (same (norm_inline_enum here idx d i))
   | C04Enum e obs refl =>
       (if enum_out_eq_dec (write_enum e) obs then true else false) &&
       match read_enum obs, refl with
